@@ -69,6 +69,11 @@ class Ctx:
             lst.append(txt)
 
     def violated(self, rule, func, instance, msg, node=None, witness=None):
+        # a value the known-bits domain could not interpret (bits printed as `=T`) is not a finding: the rule is undecided there
+        import re
+        if "NOT-INTERPRETABLE" in (msg or ""):
+            self.unknown(rule, "%s: not interpretable in the known-bits domain (%s)" % (instance, (msg or "")[:160]))
+            return
         where = func.qual if hasattr(func, "qual") else str(func)
         file = func.file if hasattr(func, "file") else None
         line = getattr(node, "lineno", None) if node is not None else (
